@@ -273,8 +273,12 @@ func VH_C08_tx_shape(h *vrt.H) {
 		BlockHash: h.Bytes("blockHash", 32), BeaconRoot: beacon, Requests: [][]byte{append([]byte{0}, h.Bytes("gasRevenue", 40)...)},
 		StateRoot: make([]byte, 32), ReceiptsRoot: make([]byte, 32), LogsBloom: make([]byte, 256), PrevRandao: make([]byte, 32)}}
 	first := vhTx{msgs: []sdk.Msg{msg}}
-	shape := h.Choose("firstTxShape", 0, 3)
+	shape := h.Choose("firstTxShape", 0, 5)
 	switch shape {
+	case 4: // the block message twice in the first transaction
+		first = vhTx{msgs: []sdk.Msg{msg, msg}}
+	case 5: // another message in front of the block message
+		first = vhTx{msgs: []sdk.Msg{&vhOtherMsg{}, msg}}
 	case 1:
 		first = vhTx{msgs: []sdk.Msg{msg, &vhOtherMsg{}}}
 	case 2:
